@@ -6,13 +6,15 @@ import (
 	"fmt"
 	"os"
 	"sort"
+
+	pb "go.etcd.io/etcd/raft/v3/raftpb"
 )
 
 // Schedule file: one JSON object per line (one behaviour of the TLA+ specification):
 //   {"id":"..","opt":{..Options..},"lockstep":true,"steps":[{"a":{..action..},"s":{..expected state..}},..]}
 // Actions (the spec's `act` variable): {"name":"Campaign","i":1} {"name":"Propose","i":1,"v":3}
 //   {"name":"Heartbeat","i":1} {"name":"Deliver"|"Drop"|"Dup","m":{..msg..}} {"name":"Crash","i":1,"keep":0|1}
-//   {"name":"Restart","i":1}
+//   {"name":"Restart","i":1} {"name":"ProposeConfChange","i":1,"v":101,"ch":3|-3}  (ch: +id add voter, -id remove voter)
 // Expected state: {"n":[{node},..],"msgs":[{"m":{..},"c":k},..]}
 
 type SAct struct {
@@ -20,10 +22,12 @@ type SAct struct {
 	I    int    `json:"i"`
 	V    int    `json:"v"`
 	Keep int    `json:"keep"`
+	Ch   int    `json:"ch"`
 	M    *MsgD  `json:"m"`
 }
 
 type SPr struct {
+	ID    uint64 `json:"id"` // 0 in schedules of instances without membership change: position k is node k+1
 	Match uint64 `json:"match"`
 	Next  uint64 `json:"next"`
 	State string `json:"state"`
@@ -31,17 +35,18 @@ type SPr struct {
 }
 
 type SNode struct {
-	Up      bool   `json:"up"`
-	Term    uint64 `json:"term"`
-	Vote    uint64 `json:"vote"`
-	Role    string `json:"role"`
-	Lead    uint64 `json:"lead"`
-	Commit  uint64 `json:"commit"`
-	Applied uint64 `json:"applied"`
-	HS      HSD    `json:"hs"`
-	SC      uint64 `json:"sc"`
-	Log     []EntD `json:"log"`
-	Pr      []SPr  `json:"pr"`
+	Up      bool     `json:"up"`
+	Term    uint64   `json:"term"`
+	Vote    uint64   `json:"vote"`
+	Role    string   `json:"role"`
+	Lead    uint64   `json:"lead"`
+	Commit  uint64   `json:"commit"`
+	Applied uint64   `json:"applied"`
+	HS      HSD      `json:"hs"`
+	SC      uint64   `json:"sc"`
+	Log     []EntD   `json:"log"`
+	Pr      []SPr    `json:"pr"`
+	Cfg     []uint64 `json:"cfg"` // the voters of the node's current configuration (absent: not compared)
 }
 
 type SMsg struct {
@@ -102,7 +107,7 @@ func (c *Cluster) compare(s *SState) string {
 			return fmt.Sprintf("node %d log length: spec %d impl %d", id, len(e.Log), len(g.Log))
 		}
 		for k := range e.Log {
-			if e.Log[k].T != g.Log[k].T || e.Log[k].P != g.Log[k].P {
+			if e.Log[k].T != g.Log[k].T || e.Log[k].P != g.Log[k].P || e.Log[k].C != g.Log[k].C {
 				return fmt.Sprintf("node %d log[%d]: spec %+v impl %+v", id, k+1, e.Log[k], g.Log[k])
 			}
 		}
@@ -113,13 +118,23 @@ func (c *Cluster) compare(s *SState) string {
 			return fmt.Sprintf("node %d soft/hard state: spec term=%d vote=%d role=%s lead=%d commit=%d applied=%d impl term=%d vote=%d role=%s lead=%d commit=%d applied=%d",
 				id, e.Term, e.Vote, e.Role, e.Lead, e.Commit, e.Applied, g.Term, g.Vote, g.Role, g.Lead, g.Commit, g.Applied)
 		}
+		if e.Cfg != nil {
+			// the node's own configuration (Status().Config): exactly these voters, nothing joint, no learners
+			same := len(e.Cfg) == len(g.Conf.V) && len(g.Conf.Vo) == 0 && len(g.Conf.L) == 0 && len(g.Conf.Ln) == 0
+			for k := 0; same && k < len(e.Cfg); k++ {
+				same = e.Cfg[k] == g.Conf.V[k]
+			}
+			if !same {
+				return fmt.Sprintf("node %d configuration: spec voters %v impl %+v", id, e.Cfg, g.Conf)
+			}
+		}
 		if e.Role == "L" {
 			if len(e.Pr) != len(g.Pr) {
 				return fmt.Sprintf("node %d progress size: spec %d impl %d", id, len(e.Pr), len(g.Pr))
 			}
 			for k := range e.Pr {
 				x, y := e.Pr[k], g.Pr[k]
-				if x.Match != y.Match || x.Next != y.Next || x.State != y.State || x.Probe != y.Probe {
+				if x.Match != y.Match || x.Next != y.Next || x.State != y.State || x.Probe != y.Probe || (x.ID != 0 && x.ID != y.ID) {
 					return fmt.Sprintf("node %d progress[%d]: spec %+v impl %+v", id, k+1, x, y)
 				}
 			}
@@ -188,6 +203,12 @@ func (c *Cluster) runBehaviour(b Behaviour) Result {
 			ok = c.Do(Event{Ev: "crash", Node: a.I, Idx: idx})
 		case "Restart":
 			ok = c.Do(Event{Ev: "restart", Node: a.I})
+		case "ProposeConfChange":
+			ty, id := int(pb.ConfChangeAddNode), a.Ch
+			if a.Ch < 0 {
+				ty, id = int(pb.ConfChangeRemoveNode), -a.Ch
+			}
+			ok = c.Do(Event{Ev: "confchange", Node: a.I, P: a.V, CC: &CCD{Ops: [][]int{{ty, id}}}})
 		default:
 			ok = false
 		}
